@@ -62,6 +62,15 @@ func c16Bytes(name string) []byte {
 // c16Run drives a store and the abstract model through K symbolic operations.
 func c16Run(store quickfix.MessageStore, reopen func() quickfix.MessageStore, pfx string) {
 	model := &c16Model{N: 1, T: 1, last: 9}
+	if reopen != nil && ndBool("history-one-message-saved-and-read-back") {
+		// the store has been in use: whatever it keeps open or cached from a read is there when the operations start
+		verifCase("used-store")
+		b := ndBytes("hist", 1)
+		verifAssume(store.SaveMessage(10, b) == nil)
+		got, err := store.GetMessages(10, 10)
+		verifAssert(err == nil && len(got) == 1 && verifEqBytes(got[0], b), pfx+"-history-read-back")
+		model.msgs, model.last = append(model.msgs, c16Msg{10, b}), 10
+	}
 	K := 3 + verifTier()
 	nops := 8
 	for k := 0; k < K; k++ {
@@ -238,6 +247,12 @@ func VerifHarness_C17_crash() {
 	} else {
 		verifCase("process-death")
 	}
+	// a write cut in the middle leaves a torn record behind; a crash between two effects leaves whole records only
+	if i < effects && vfs.journal[i].kind == 'w' && cut > 0 && cut < len(vfs.journal[i].data) {
+		verifCase("torn-write")
+	} else {
+		verifCase("whole-effects")
+	}
 	vfs.crash(i, cut, power)
 
 	// ---- recovery
@@ -295,7 +310,7 @@ func VerifHarness_C17_crash() {
 		verifAssert(e1 == nil && len(one) == 1 && verifEqBytes(one[0], pending.b), "counter-says-used-so-message-retrievable")
 	}
 	// the store keeps working after recovery
-	if verifTier() == 1 {
+	{
 		nb := c16Bytes("after")
 		verifAssert(re.SaveMessageAndIncrNextSenderMsgSeqNum(rN, nb) == nil, "save-after-recovery-succeeds")
 		one, e1 := re.GetMessages(rN, rN)
